@@ -487,6 +487,10 @@ def gen_desc(seed, idx):
         month, day = 2, rng.choice([1, 7, 14, 21, 27])
     start_dt = datetime.datetime(year, month, day, rng.randint(0, 23), rng.randint(0, 59), rng.randint(0, 59))
     ndays = rng.randint(3, 40) if rng.random() < 0.3 else rng.randint(3, 8)
+    # BACnet dates end on 2154-12-31 (year octet 254; 255 is the wildcard): a run must not cross into 2155
+    last = datetime.datetime(2154, 12, 31, 0, 0, 0) - datetime.timedelta(days=ndays + 2)
+    if start_dt > last:
+        start_dt = last.replace(hour=start_dt.hour, minute=start_dt.minute, second=start_dt.second)
     day0 = start_dt.date()
     real = rng.random() < 0.3
     vals = [1, 2, 3, 4, 7]
